@@ -40,6 +40,19 @@ impl<K, V> BTreeMap<K, V> {
     }
 }
 
+impl<K, V> BTreeMap<K, V> {
+    /// verification only: appends an entry WITHOUT searching. The caller guarantees that `key` is
+    /// greater than every key already present (harnesses assert it); gives a pre-state whose
+    /// layout is fixed, so that no pointer into the map depends on symbolic key bytes.
+    pub fn verif_push(&mut self, key: K, value: V) {
+        assert!(self.len < CAP, "verification map capacity exceeded");
+        let i = self.len;
+        let old = core::mem::replace(self.slot_mut(i), Some((key, value)));
+        core::mem::forget(old); // always None
+        self.len += 1;
+    }
+}
+
 impl<K, V> Drop for BTreeMap<K, V> {
     fn drop(&mut self) {
         each_slot!(i, {
